@@ -73,31 +73,47 @@ Definition upd_counters (s : gst) (np nw no : Z) : gst :=
 Definition upd_globals (s : gst) (g : option slc) (i : bexp) (o : slc) (u : option gtriple) : gst :=
   {| npub := npub s; npriv := npriv s; noid := noid s; guard := g; ignore := i; one := o; unw := u |}.
 
-(* the semantics of a computation: final result, final state, commands appended (writer style) *)
+(* the semantics of a computation: final result, final state, commands appended (writer style).
+   Model-internal sanity checks (pysnark has none): every expression handed to a primitive effect -- a witness hint, a raise
+   condition, a constraint's wires and values, an observed value, the globals of a region -- may only mention variables that
+   are already allocated; otherwise the model itself fails with [ModelError].  The checks make well-scopedness of every
+   generated command list a theorem (Proofs/Frame.v: run_scoped, run_vscoped) instead of a typing discipline threaded through
+   every gadget; they have never fired (a ModelError would show up as a trace mismatch in the correspondence). *)
+Definition model_err {A} (s : gst) : (A + exn) * gst * list cmd := (inr ModelError, s, [CRaiseIf BTrue ModelError (unw_triple s)]).
+Definition globals_scoped (np nw : Z) (g : option slc) (i : bexp) (o : slc) : bool :=
+  match g with Some x => slc_scoped np nw x | None => true end && bscopedb np nw i && slc_scoped np nw o.
 Fixpoint run {lvl A} (m : M lvl A) : gst -> (A + exn) * gst * list cmd :=
   match m in M _ T return gst -> (T + exn) * gst * list cmd with
   | Ret a => fun s => (inl a, s, [])
   | Raise e => fun s => (inr e, s, [CRaiseIf BTrue e (unw_triple s)])
   | Get k => fun s => run (k s) s
   | MPriv h k => fun s => let v := - (npriv s + 1) in
+                if vscopedb (npub s) (npriv s) h then
                 match run (k (var_slc v)) (upd_counters s (npub s) (npriv s + 1) (noid s)) with (r, s', c) => (r, s', CAlloc Priv h :: c) end
+                else model_err s
   | MPub h k => fun s => let v := npub s + 1 in
+               if vscopedb (npub s) (npriv s) h then
                match run (k (var_slc v)) (upd_counters s (npub s + 1) (npriv s) (noid s)) with (r, s', c) => (r, s', CAlloc Pub h :: c) end
+               else model_err s
   | Fresh k => fun s => run (k (noid s)) (upd_counters s (npub s) (npriv s) (noid s + 1))
   | Emit c k => fun s =>
-      (* model-internal sanity check (pysnark has none): a constraint / observed wire may only mention allocated variables;
-         it makes well-scopedness of every generated command list a theorem (Proofs/Frame.v) and has never fired *)
-      if emittable c && cmd_scoped (npub s) (npriv s) c then match run k s with (r, s', cs) => (r, s', c :: cs) end
-      else (inr ModelError, s, [CRaiseIf BTrue ModelError (unw_triple s)])
-  | RaiseIf b e k => fun s => match run k s with (r, s', cs) => (r, s', CRaiseIf b e (unw_triple s) :: cs) end
+      if emittable c && cmd_scoped (npub s) (npriv s) c && cmd_vscoped (npub s) (npriv s) c
+      then match run k s with (r, s', cs) => (r, s', c :: cs) end
+      else model_err s
+  | RaiseIf b e k => fun s =>
+      if bscopedb (npub s) (npriv s) b then match run k s with (r, s', cs) => (r, s', CRaiseIf b e (unw_triple s) :: cs) end
+      else model_err s
   | Local g i body k => fun s =>
+      if globals_scoped (npub s) (npriv s) (Some g) i g then
       let s_in := upd_globals s (Some g) i g (match unw s with None => Some (cur_triple s) | Some u => Some u end) in
       match run body s_in with
       | (inl x, s1, c1) =>
           match run (k x) (upd_globals s1 (guard s) (ignore s) (one s) (unw s)) with (r, s2, c2) => (r, s2, c1 ++ c2) end
       | (inr e, s1, c1) => (inr e, upd_globals s1 (guard s) (ignore s) (one s) (unw s), c1)
       end
-  | SetGlobals _ g i o k => fun s => run k (upd_globals s g i o (unw s))
+      else model_err s
+  | SetGlobals _ g i o k => fun s =>
+      if globals_scoped (npub s) (npriv s) g i o then run k (upd_globals s g i o (unw s)) else model_err s
   end.
 
 (* level false embeds in level true *)
